@@ -1056,6 +1056,14 @@ func c08Gen(o *out, r *rng, tier string) {
 			}
 		}
 	}
+	// limits that do not fit in 32 bits (MaxReceiveMessageSizeOption takes an int): small messages are within them
+	for _, p := range []string{"grpc", "web", "webtext", "hs-proto", "hu-proto", "hu-json", "ws"} {
+		for _, lim := range []int{1 << 32, 1<<32 + 16, 1 << 40, 1<<31 + 5} {
+			for _, enc := range encs(p) {
+				emitR(p, lim, 64, enc, shapes(p, 1)[0], "m100", "limit-above-32-bits")
+			}
+		}
+	}
 	// gzip frames made of two members: a large first member and a last member of a few bytes (whose recorded size is all
 	// the frame's trailer tells), over and within the limit
 	for _, p := range []string{"grpc", "web", "webtext"} {
